@@ -25,13 +25,13 @@ func TestMain(m *testing.M) { hx.Main(m) }
 
 var rec = hx.NewRecorder("C14",
 	"a case is a history of 5-30 operations (AddSchema with plain, related, indexed, branchable and permissioned types; "+
-		"PatchSchema add-field with and without setAsDefault; SetActiveSchemaVersion; CreateIndex/DropIndex; AddView; "+
-		"create/update/delete of documents; ACP policy, owners and relationships; SetReplicator/DeleteReplicator, "+
-		"Add/RemoveP2PCollections, Add/RemoveP2PDocuments) with restart points between operations and, in the core mode, "+
-		"crash points at storage commits; non-trivial = at least one restart that follows an index or schema-version change "+
-		"(or, in the p2p mode, a peer-configuration change; in the acp mode, an access-control change) and at least one later "+
-		"successful operation that allocates an identifier (collection, field or index id) or, p2p/acp, changes that configuration again; "+
-		"distinct = distinct case JSON",
+		"PatchSchema add-field with and without setAsDefault; SetActiveSchemaVersion; PatchCollection on IsActive; CreateIndex/DropIndex; "+
+		"AddView (materialized or not) and RefreshViews; create/update/delete of documents; ACP policy, owners and relationships; "+
+		"SetReplicator/DeleteReplicator, Add/RemoveP2PCollections, Add/RemoveP2PDocuments) with restart points between operations and, "+
+		"in the core mode, crash points at storage commits; non-trivial = at least one restart that follows an index or schema-version change "+
+		"(p2p mode: or a peer-configuration change; acp mode: or an access-control change) and at least one later successful operation that "+
+		"allocates an identifier (collection, field or index id) or, p2p/acp, changes that configuration again; distinct = distinct case JSON; "+
+		"half of the cases run with the avoidance of known findings switched on",
 	"the twin T (same history, one process lifetime, Badger in-memory) is the reference; node R uses Badger on files",
 	"no counter fields (their commits carry random nonces), block signing off, no lens migrations (no wasm modules offline)",
 	"crash points are storage-commit boundaries of T's store, opened on a logical copy (key/value snapshot), in cases without ACP and P2P",
